@@ -13,6 +13,7 @@
  *          b:<k1>,<k2>,..:<M>:<L>:<p>   the same chord under one Hann window of L samples centred at p/1000*N (+ channel offset)
  *          s:<lo>:<hi>                  linear sweep from lo/1000*fmax to hi/1000*fmax (channel c: narrowed band, odd c reversed)
  *          n:<seed>:<K>                 band-limited noise: K sinusoids, LCG frequencies in [0.03,1]*min(fmax,0.3 Nyquist), LCG phases
+ *          l:<hz>:<f>                   LFE-content member (6 channels): channel 5 = 0.5 sin at <hz> Hz (f=0 abrupt, f=1 faded), channels 0-4 two-tone chords
  *          c:<seed>:<cnt>:<w>           click train: cnt clicks of width w (1 = single sample, else raised cosine) at LCG positions
  *   F(k,c,M) = fmax*(0.05+0.95*(((k+3c) mod M)+c/8)/M)   -> all channels carry different frequencies
  *   Every channel has its own tone set / LCG seed / click positions / burst position.
@@ -120,6 +121,19 @@ static int gen(const char *sig,int c,long N,long rate,double fmax,double *x){
     }
     for(n=0;n<N;n++)x[n]*=A*edge(n,N,fade);
     __real_free(f);
+    return 0;
+  }
+  if(sig[0]=='l'){
+    /* LFE-content member: channel 5 = 0.5*sin(2 pi hz t) (f=1: 5 ms fades, f=0: abrupt onset/offset);
+       every other channel c: two tones 0.3+0.3 at the grid frequencies F(c,c,10) and F(c+2,c,10) with fades */
+    double hz; long fd; char *e;
+    hz=strtod(sig+2,&e); if(*e!=':')return -1; fd=strtol(e+1,&e,10);
+    if(c==5){
+      for(n=0;n<N;n++)x[n]=0.5*sin(2*M_PI*hz*n/rate)*(fd?edge(n,N,fade):1.0);
+    }else{
+      double f1=gridf(c,c,10,fmax),f2=gridf(c+2,c,10,fmax);
+      for(n=0;n<N;n++)x[n]=(0.3*sin(2*M_PI*f1*n/rate+0.5*c)+0.3*sin(2*M_PI*f2*n/rate+1.0+c))*edge(n,N,fade);
+    }
     return 0;
   }
   if(sig[0]=='c'){
